@@ -27,6 +27,7 @@ func main() {
 	Register("c03", runC03)
 	Register("sync", runSync)
 	Register("replay", runReplay)
+	Register("hist", runHist)
 	Main()
 }
 
@@ -1270,6 +1271,10 @@ func runReplay(c *Ctx) {
 	r := &runner{c: c}
 	for _, text := range c.Args {
 		// "kind: (call ...)" -> "(call ...)"
+		if i := strings.Index(text, "(hist "); i >= 0 {
+			replayHist(c, text[i:])
+			continue
+		}
 		if i := strings.Index(text, "(call "); i > 0 {
 			text = text[i:]
 		}
@@ -1304,4 +1309,153 @@ func runReplay(c *Ctx) {
 		r.call(n, in, args)
 	}
 	c.Stats["calls"] = r.calls
+}
+
+// ---------------------------------------------------------------------------------------------
+// history independence: natives that carry state beyond one call.  The only such state in func.go /
+// compiler.go is the per-Code regexp cache (compiler.regexpCache, reached by _match through the closure
+// c.funcMatch); inputIter is stateful by design and the allocator lives for one instruction.
+// Oracle: call k of a sequence on ONE Code gives what the same call gives on a freshly compiled Code
+// (in particular: an unsupported flag or an invalid expression is an error whatever was compiled before).
+
+var histQueries = []struct{ name, src string }{
+	{"test", `test($re; $fl)`},
+	{"match", `[match($re; $fl)]`},
+	{"capture", `[capture($re; $fl)]`},
+	{"scan", `[scan($re; $fl)]`},
+	{"splits", `[splits($re; $fl)]`},
+	{"split", `split($re; $fl)`},
+	{"sub", `sub($re; "X"; $fl)`},
+	{"gsub", `gsub($re; "X"; $fl)`},
+	{"_match", `_match($re; $fl; false)`},
+	{"test1", `test($re)`},
+	{"pair", `[(try test($re; $fl) catch "E"), (try test($re; $fl2) catch "E"), (try test($re; $fl) catch "E")]`},
+}
+
+type histCall struct{ re, fl, fl2 any }
+
+func histCompile(src string) *gojq.Code {
+	q, err := gojq.Parse(src)
+	if err != nil {
+		panic(err)
+	}
+	c, err := gojq.Compile(q, gojq.WithVariables([]string{"$re", "$fl", "$fl2"}))
+	if err != nil {
+		panic(err)
+	}
+	return c
+}
+
+func histRun(code *gojq.Code, in any, h histCall) (out string) {
+	defer func() {
+		if r := recover(); r != nil {
+			out = "(panic " + Hexs([]byte(fmt.Sprint(r))) + ")"
+		}
+	}()
+	it := code.Run(in, h.re, h.fl, h.fl2)
+	v, ok := it.Next()
+	if !ok {
+		return "(none)"
+	}
+	if e, ok := v.(error); ok {
+		return "(err " + errSexp(e) + ")"
+	}
+	return "(ok " + SexpVal(v) + ")"
+}
+
+func histText(q int, in any, calls []histCall) string {
+	var sb strings.Builder
+	fmt.Fprintf(&sb, "(hist %s %s (", histQueries[q].name, SexpVal(in))
+	for i, h := range calls {
+		if i > 0 {
+			sb.WriteByte(' ')
+		}
+		fmt.Fprintf(&sb, "(%s %s %s)", SexpVal(h.re), SexpVal(h.fl), SexpVal(h.fl2))
+	}
+	sb.WriteString("))")
+	return sb.String()
+}
+
+// histCase runs one sequence; returns the number of calls made
+func histCase(c *Ctx, q int, in any, calls []histCall, bad *int) int {
+	used := histCompile(histQueries[q].src)
+	for k, h := range calls {
+		got := histRun(used, in, h)
+		want := histRun(histCompile(histQueries[q].src), in, h)
+		if got != want || strings.HasPrefix(got, "(panic") {
+			*bad++
+			if *bad <= 10 {
+				c.Violation("history-dependent: %s :: call %d gives %s on the Code used for the earlier calls but %s on a fresh Code",
+					histText(q, in, calls), k+1, got, want)
+			}
+			break
+		}
+	}
+	return 2 * len(calls)
+}
+
+func runHist(c *Ctx) {
+	pats := []any{"b", "B", "a+", "(", "[", "", "b|c"}
+	flags := []any{nil, "g", "i", "x", "gx", "ig", "s", "", "xi", 5}
+	var calls []histCall
+	for _, p := range pats {
+		for _, f := range flags {
+			calls = append(calls, histCall{p, f, flags[(len(calls)*7+3)%len(flags)]})
+		}
+	}
+	if c.Tier == "quick" {
+		calls = nil
+		for i, p := range []any{"b", "B", "a+", "("} {
+			for j, f := range []any{nil, "g", "i", "x", "gx", 5} {
+				calls = append(calls, histCall{p, f, []any{"x", "g", nil, "i"}[(i+j)%4]})
+			}
+		}
+	}
+	bad, n, seqs := 0, 0, 0
+	in := "abc Bb"
+	for q := range histQueries {
+		for _, h1 := range calls {
+			for _, h2 := range calls {
+				// valid-then-invalid and invalid-then-valid arise from the full square; the third call repeats the first
+				n += histCase(c, q, in, []histCall{h1, h2, h1}, &bad)
+				seqs++
+			}
+		}
+	}
+	c.Stats["sequences"] = seqs
+	c.Stats["calls"] = n
+	c.Stats["history_dependent"] = bad
+}
+
+func replayHist(c *Ctx, text string) {
+	e, err := parseSx(text)
+	if err != nil || !e.isL || len(e.list) != 4 || !e.list[3].isL {
+		c.Violation("replay: cannot parse case %q: %v", text, err)
+		return
+	}
+	q := -1
+	for i, hq := range histQueries {
+		if hq.name == e.list[1].atom {
+			q = i
+		}
+	}
+	in, err1 := valOfSx(e.list[2])
+	if q < 0 || err1 != nil {
+		c.Violation("replay: bad hist case %q", text)
+		return
+	}
+	var calls []histCall
+	for _, t := range e.list[3].list {
+		if !t.isL || len(t.list) != 3 {
+			c.Violation("replay: bad hist call in %q", text)
+			return
+		}
+		re, _ := valOfSx(t.list[0])
+		fl, _ := valOfSx(t.list[1])
+		fl2, _ := valOfSx(t.list[2])
+		calls = append(calls, histCall{re, fl, fl2})
+	}
+	bad := 0
+	histCase(c, q, in, calls, &bad)
+	c.Stats["history_dependent"] = bad
 }
